@@ -510,6 +510,12 @@ class Fn:
         p = op_place(op)
         if p is not None and not p.get("p"):
             return self.locals[p["l"]]
+        if p is not None:
+            for pj in reversed(p["p"]):
+                if pj["k"] == "field" and "ty" in pj:
+                    return pj["ty"]
+                if pj["k"] not in ("downcast",):
+                    break
         c = op_const(op)
         if c:
             return c.get("ty")
@@ -542,6 +548,30 @@ class Fn:
                             dq.append(y)
                 if not found:
                     out.add((a, label))
+        return out
+
+    def edge_region(self, a, label):
+        """blocks that can only run after branch edge (a, label) was taken"""
+        seen = {0}
+        dq = deque([0])
+        while dq:
+            x = dq.popleft()
+            for (lab2, y) in self.succ_edges(x):
+                if x == a and lab2 == label:
+                    continue
+                if y not in seen:
+                    seen.add(y)
+                    dq.append(y)
+        return self.reach_blocks - seen
+
+    def branch_edges(self):
+        """all (block, label, cond_struct) of switch terminators"""
+        out = []
+        for b in sorted(self.reach_blocks):
+            t = self.blocks[b]["term"]
+            if t["k"] == "switch":
+                for lab, _ in self.succ_edges(b):
+                    out.append((b, lab, self.cond_struct(b, lab)))
         return out
 
     def must_conditions(self, b):
